@@ -1,11 +1,59 @@
 import OW.Driver.Proto
 import OW.Util.Piecewise
 import OW.Util.FindRoot
-/- Protocol handlers for util/fn: `FR` (FindRoot) and `PW` (Piecewise). Owned by the C18 work. -/
-namespace OW.Driver.Fn
-open OW OW.Proto
+import OW.Util.ExprFn
+/- Protocol handlers for util/fn: `FR` (FindRoot) and `PW` (Piecewise). Owned by the C18 work.
 
-def handleFR (_args : Toks) : String := "bad-op"
-def handlePW (_args : Toks) : String := "bad-op"
+`FR id mono L <expr> hasD [<dexpr>] initialX minX maxX tol conv maxIter`
+      → `ok x delta nf evals… nd devals…` | `panic other`
+   (`mono`, `L` are oracle hints for the Go side: function non-decreasing by construction, Lipschitz bound; the
+    model ignores them. `evals`/`devals` in call order.)
+`PW id x nx xs… ny ys…` → `val y` | `err` | `panic index-out-of-range`
+-/
+namespace OW.Driver.Fn
+open OW OW.Proto OW.ExprFn
+
+def popExpr (ts : Toks) : Option (Expr Float × Toks) := parse parseF (ts.length + 1) ts
+
+def popOptExpr (hasD : Nat) (ts : Toks) : Option (Option (Expr Float) × Toks) :=
+  if hasD == 1 then
+    match popExpr ts with
+    | some (d, ts) => some (some d, ts)
+    | none => none
+  else some (none, ts)
+
+def handleFR (args : Toks) : String :=
+  match (do
+    let (_mono, ts) ← popN args
+    let (_l, ts) ← popF ts
+    let (e, ts) ← popExpr ts
+    let (hasD, ts) ← popN ts
+    let (d, ts) ← popOptExpr hasD ts
+    let (initialX, ts) ← popF ts
+    let (minX, ts) ← popF ts
+    let (maxX, ts) ← popF ts
+    let (tol, ts) ← popF ts
+    let (conv, ts) ← popF ts
+    let (maxIter, _) ← popI ts
+    pure (e, d, initialX, minX, maxX, tol, conv, maxIter)) with
+  | none => "bad-op"
+  | some (e, d, initialX, minX, maxX, tol, conv, maxIter) =>
+    -- `for iteration := 0; iteration < maxIterations` with a negative limit runs zero times
+    match OW.Fn.findRoot e.eval (d.map (fun (e : Expr Float) => e.eval)) initialX minX maxX tol conv maxIter.toNat with
+    | .error c => "panic " ++ c
+    | .ok r => joinToks ["ok", fmtF r.x, fmtF r.delta, fmtFs r.evals.reverse, fmtFs r.devals.reverse]
+
+def handlePW (args : Toks) : String :=
+  match (do
+    let (x, ts) ← popF args
+    let (xs, ts) ← popFs ts
+    let (ys, _) ← popFs ts
+    pure (x, xs, ys)) with
+  | none => "bad-op"
+  | some (x, xs, ys) =>
+    match OW.Fn.piecewise x xs ys with
+    | .val y => "val " ++ fmtF y
+    | .err => "err"
+    | .panic c => "panic " ++ c
 
 end OW.Driver.Fn
